@@ -23,7 +23,10 @@ KeyChoices(gs) == LET gks == KeysFor(gs) \ {0} IN
 Shape(gs, gk, gn, gc) == [kind |-> "dbc", schema |-> gs, key |-> gk, n |-> gn, strcls |-> gc,
                           rs |-> RecordSize(gs), fc |-> FieldCount(gs), offs |-> FieldOffsets(gs),
                           size0 |-> FileSize(gn, RecordSize(gs), 0),
-                          routes |-> IF gn <= 128 THEN SetToSeq(RoutesFor(gn)) ELSE <<>>]
+                          routes |-> IF gn <= 128 THEN SetToSeq(RoutesFor(gn)) ELSE <<>>,
+                          \* the kinds of string reference the input table uses, in the order the builder cycles through them
+                          refkinds |-> IF (Len(gs) + gk + gn + FieldCount(gs) + Seed) % 2 = 0 THEN <<"start">>
+                                       ELSE <<"start", "inside", "nul", "zero", "last", "inside">>]
 
 One == {<<gf>> : gf \in FieldSet}
 Two == {<<gf, gg>> : gf \in FieldSet, gg \in FieldSet}
